@@ -513,6 +513,95 @@ def exact_crossings(S1, S2):
     return out
 
 
+def _saturating(adj, n_right):
+    """Kuhn's augmenting paths: size of a maximum matching of the left vertices (adjacency lists) into the right ones"""
+    owner = [-1] * n_right
+
+    def aug(u, seen):
+        for v in adj[u]:
+            if v in seen:
+                continue
+            seen.add(v)
+            if owner[v] < 0 or aug(owner[v], seen):
+                owner[v] = u
+                return True
+        return False
+
+    # cheap pass first (almost every point has exactly one free partner)
+    size = 0
+    todo = []
+    for u in range(len(adj)):
+        for v in adj[u]:
+            if owner[v] < 0:
+                owner[v] = u
+                size += 1
+                break
+        else:
+            todo.append(u)
+    for u in todo:
+        if adj[u] and aug(u, set()):
+            size += 1
+    return size
+
+
+def _boxes_touch(s1, s2):
+    return (min(s1[0], s1[2]) <= max(s2[0], s2[2]) and min(s2[0], s2[2]) <= max(s1[0], s1[2])
+            and min(s1[1], s1[3]) <= max(s2[1], s2[3]) and min(s2[1], s2[3]) <= max(s1[1], s1[3]))
+
+
+def one_point_per_crossing(pts, cr, S1, S2, worst):
+    """'exactly the crossing points': every returned point is accounted for by a crossing pair of its own (robust,
+    borderline, or a parallel pair whose segments touch there), and every robust crossing pair by a point of its own.
+    Returns None or a description."""
+    if not pts:
+        return None
+    P = np.array(pts, dtype=float).reshape(-1, 2)
+    ok = np.isfinite(P).all(axis=1)
+    pairs = [c for c in cr if c[6] in ("in", "opt")]
+    adj = [[] for _ in pts]
+    if pairs:
+        X = np.array([_f(c[4]) for c in pairs])
+        Y = np.array([_f(c[5]) for c in pairs])
+        T = np.array([c[7] for c in pairs]) * (1 + 1e-6) + 1e-300
+        with np.errstate(all="ignore"):
+            near = (np.abs(P[:, 0][:, None] - X[None, :]) <= T[None, :]) & (np.abs(P[:, 1][:, None] - Y[None, :]) <= T[None, :])
+        for u, v in zip(*np.nonzero(near)):
+            adj[int(u)].append(int(v))
+    n_right = len(pairs)
+    # exactly parallel pairs are solved only when their bounding boxes touch; the singular system may then yield anything
+    # that lies on both segments
+    for c in cr:
+        if c[6] == "par" and _boxes_touch(S1[c[0]], S2[c[1]]):
+            got = False
+            for u, (px, py) in enumerate(pts):
+                if ok[u] and _near_any(px, py, [S1[c[0]]], worst) and _near_any(px, py, [S2[c[1]]], worst):
+                    adj[u].append(n_right)
+                    got = True
+            if got:
+                n_right += 1
+    m = _saturating(adj, n_right)
+    if m < len(pts):
+        free = [pts[u] for u in range(len(pts)) if not adj[u]]
+        return (f"{len(pts)} points returned but only {m} of them can be assigned to crossing pairs of their own "
+                f"({sum(1 for c in pairs if c[6] == 'in')} robust, {sum(1 for c in pairs if c[6] == 'opt')} borderline, "
+                f"{n_right - len(pairs)} touching parallel pairs): a crossing is reported more than once or a point is no "
+                f"crossing" + (f"; e.g. {free[0]}" if free else f"; points {pts[:4]}"))
+    # the other direction: robust pairs -> points
+    rob = [k for k, c in enumerate(pairs) if c[6] == "in"]
+    if rob:
+        radj = [[] for _ in rob]
+        pos = {k: n for n, k in enumerate(rob)}
+        for u in range(len(pts)):
+            for v in adj[u]:
+                if v in pos:
+                    radj[pos[v]].append(u)
+        m = _saturating(radj, len(pts))
+        if m < len(rob):
+            return (f"{len(rob)} robust crossing pairs but only {m} of them can be assigned returned points of their own "
+                    f"({len(pts)} points returned)")
+    return None
+
+
 def oracle_inter(case, impl):
     bad = []
     if "err" in impl:
@@ -545,6 +634,10 @@ def oracle_inter(case, impl):
     n_par_touch = sum(1 for c in cr if c[6] == "par")
     if not (n_in <= len(impl["pts"]) <= n_in + n_opt + n_par_touch):
         bad.append(("count", f"{len(impl['pts'])} points returned, {n_in} robust and {n_opt} borderline crossing pairs"))
+    elif not bad:
+        d = one_point_per_crossing(impl["pts"], cr, S1, S2, worst)
+        if d is not None:
+            bad.append(("count", d))
     return bad[:4]
 
 
@@ -564,14 +657,13 @@ def check_step(y_impl, stats, who):
     """y_impl: None (omitted) or float; stats: classified candidates of this abscissa"""
     ins = [(s[2], s[4]) for s in stats if s[3] == "in"]
     opts = [(s[2], s[4]) for s in stats if s[3] == "opt"]
-    wild = any(s[3] == "par" for s in stats)  # an edge collinear with the probe: singular system
     if y_impl is None:
         if ins:
             sol, _ = max(ins, key=lambda p: p[0]["y"])
             return f"{who}: abscissa omitted although an edge crosses it robustly at y={float(sol['y'])!r} (t1={float(sol['t1'])!r}, t2={float(sol['t2'])!r})"
         return None
-    if wild:
-        return None
+    # (a singular pair - an edge parallel to the probe line or a zero-length edge - never contributes: LinAlgError ->
+    #  T = inf -> not in range, so the reported ordinate must still be one of the in-range crossings)
     if not ins and not opts:
         return f"{who}: ordinate {y_impl!r} reported but no candidate edge is in range"
     if ins:
@@ -1095,6 +1187,17 @@ def process_design(ck, cases):
         if case.get("reuse"):
             ck.count("design:contour_object_used_before")
         ck.count("design:max_crossings=" + (str(ncross) if ncross < 5 else "5+"))
+        if "per" in mQ:
+            nsing = sum(1 for p_ in mQ["per"] for (_, _, sol_) in p_["cands"] if sol_ is None)
+            if nsing:
+                # candidate pairs whose 4x4 system is singular (np.linalg.LinAlgError branch of `intersection`)
+                ck.count("design:singular_candidate_pairs", nsing)
+                ck.count("design:cases_with_singular_pair")
+        _c = np.asarray(coords, dtype=float)
+        if len(_c) >= 2 and (_c[0] == _c[-1]).all():
+            ck.count("design:contour_already_closed")
+        if len(_c) >= 2 and (np.diff(_c, axis=0) == 0).all(axis=1).any():
+            ck.count("design:contour_with_repeated_vertex")
         if "res" in impl and "steps" in mF:
             ck.count("design:omitted_steps", len(mF["steps"]) - len(impl["res"]))
             got = {f2b(r[0]) for r in impl["res"]}
@@ -1169,6 +1272,22 @@ def design_case_list(rng, polys, lattice=False):
     return cases
 
 
+def closed_variants(rng, polys, every=3):
+    """contours that are already closed (last vertex == first vertex: the code appends the first vertex once more, which
+    gives a zero-length edge and a singular system) and contours with a repeated vertex somewhere"""
+    out = []
+    for k, item in enumerate(polys):
+        name, p = item[0].split(":")[0], np.asarray(item[1], dtype=float)
+        v = int(rng.integers(0, every))
+        if v == 0:
+            out.append((name + "+closed", np.vstack([p, p[:1]])))
+        elif v == 1:
+            j = int(rng.integers(0, len(p)))
+            reps = int(rng.choice([1, 1, 2]))
+            out.append((name + "+repeated", np.insert(p, [j] * reps, p[j], axis=0)))
+    return out
+
+
 def _worker(args):
     """thorough tier: one chunk of generated cases in a worker process; returns the Check's tallies"""
     seed, idx, n_pairs, n_poly, n_models = args
@@ -1187,13 +1306,13 @@ def run_generated(ck, rng, n_pairs, n_poly, n_models, thorough):
     process_inter(ck, list(lattice_pair_cases(rng, n_pairs)))
     process_inter(ck, list(degenerate_float_cases(rng, max(n_pairs // 2, 1))))
     polys = [("star", star_polygon(rng)) for _ in range(n_poly)]
-    process_design(ck, design_case_list(rng, polys))
+    process_design(ck, design_case_list(rng, polys + closed_variants(rng, polys)))
     lat = [("lattice", lattice_polygon(rng)) for _ in range(n_poly)]
-    process_design(ck, design_case_list(rng, lat, lattice=True))
+    process_design(ck, design_case_list(rng, lat + closed_variants(rng, lat), lattice=True))
     conts = real_contours(rng, n_models, thorough, ck)
     for item in conts:
         ck.count("contour=" + item[0].split(":")[0])
-    process_design(ck, design_case_list(rng, conts))
+    process_design(ck, design_case_list(rng, conts + closed_variants(rng, conts)))
 
 
 def main(ck):
